@@ -158,6 +158,16 @@ def run_c11_known(ctx):
         (key, "double quote inside a string value", two("A", attrs=[A("s", default='he said "hi"')])),
         (key, "line break inside a string value", two("A", attrs=[A("s", default='v"]\n[A || "A')])),
     ]
+    # the export declares every attribute name once, with one type: two features carrying the same attribute name with
+    # values of different types (the AFM reader returns such models) give a declaration that one of the uses contradicts
+    key2 = "clafer-attribute-declared-once-with-one-type"
+
+    def typed(v1, v2):
+        return dict(root=F("Root", [R(0, 1, [F("A", attrs=[A("cost", default=v1)])]), R(0, 1, [F("B", attrs=[A("cost", default=v2)])])]),
+                    ctcs=[])
+    cases += [(None, "control:one type per attribute name", typed(2, 3)),
+              (key2, "integer and real value under one attribute name", typed(1.5, 2)),
+              (key2, "string and integer value under one attribute name", typed(1, "one"))]
     for k, label, m in cases:
         clause = f"known:{k}:{label}" if k else label
         req = sx.dumps(tag("clafer_text", spec.fm_sx(m)))
@@ -208,6 +218,22 @@ def run_c09_known(ctx):
             elif sx.dumps(spec.fm_sx(back)) != sx.dumps(spec.fm_sx(expected)):
                 st.oracle_fail(label, sx.dumps(text), clause, "a different model than without the blanks")
             st.record(label, sx.dumps(text), "done", "done")
+        # a STRING literal denotes the characters between its quotation marks (INT and DOUBLE literals are converted)
+        key2 = "afm-reader-keeps-the-quotation-marks-of-string-literals"
+        text = plain.replace("B.cost: Integer [1 to 2],1,2;", 'B.vendor: ["android","i os"],"android","";')
+        path = sc.path("afm")
+        with open(path, "w", encoding="utf-8") as fh:
+            fh.write(text)
+        label = "string literals in an enumerated domain"
+        try:
+            fm = _quiet(lambda: AFMReader(path).transform())
+            attr = next(a for f in fm.get_features() for a in f.get_attributes())
+            got = (list(attr.get_domain().get_element_list()), attr.get_default_value(), attr.get_null_value())
+            if got != (["android", "i os"], "android", ""):
+                st.oracle_fail(label, sx.dumps(text), f"known:{key2}:{label}", f"read as {got!r}")
+        except Exception as e:  # noqa: BLE001
+            st.oracle_fail(label, sx.dumps(text), f"known:{key2}:{label}", "valid document rejected: " + spec.exn_name(e))
+        st.record(label, sx.dumps(text), "done", "done")
     finally:
         sc.close()
 
